@@ -215,6 +215,63 @@ pub fn check_draws(prop: &str, cfg: &ChainCfg, h: &History, out: &mut RunOutcome
                     out.probe("maxdepth_reached_draws", 1);
                 }
             }
+            // trajectory audit (hook H3): RefNuts recomputes, from the states the integrator visited, where
+            // the doubling had to stop
+            if let (Some((maxdepth, mindepth, tit, _kind, extra)), true) = (nuts_opts(&cfg.preset), !d.tap.is_empty()) {
+                let check_turning = match &cfg.preset {
+                    Preset::DiagNuts(s) => s.check_turning,
+                    Preset::LowRankNuts(s) => s.check_turning,
+                    Preset::FlowNuts(s) => s.check_turning,
+                    _ => true,
+                };
+                if tit.is_none() {
+                    let trajs = crate::refnuts::split_trajectories(&d.tap);
+                    if let Some(tr) = trajs.first() {
+                        let o = crate::refnuts::AuditOpts { maxdepth, mindepth, check_turning, extra_doublings: extra };
+                        match crate::refnuts::audit(tr, dim, &o, None) {
+                            Err(msg) => {
+                                // decide near-ties conservatively: re-audit is impossible, so only report when no
+                                // U-turn product of this trajectory is within the tie margin
+                                if !trajectory_has_near_tie(tr) {
+                                    out.violate(format!("C03/trajectory_stops_at_wrong_point/{pname}"), format!("draw {i}: {msg}"));
+                                    return;
+                                }
+                                out.probe("audit_near_tie_skipped", 1);
+                            }
+                            Ok(a) => {
+                                if a.near_tie {
+                                    out.probe("audit_near_tie_skipped", 1);
+                                } else {
+                                    out.probe("trajectories_audited", 1);
+                                    let depth = d.u64("depth").unwrap_or(u64::MAX);
+                                    let idx = d.i64("index_in_trajectory").unwrap_or(0);
+                                    if depth != a.depth {
+                                        out.violate(format!("C03/audit_depth/{pname}"), format!("draw {i}: reported depth {depth}, reference {} (stop reason {:?}, block {:?})", a.depth, a.reason, a.block));
+                                        return;
+                                    }
+                                    let div_ref = a.reason == crate::refnuts::StopReason::Divergence;
+                                    if d.progress.diverging != div_ref {
+                                        out.violate(format!("C03/audit_divergence/{pname}"), format!("draw {i}: diverging {} but reference stop reason {:?}", d.progress.diverging, a.reason));
+                                        return;
+                                    }
+                                    let md_ref = a.reason == crate::refnuts::StopReason::MaxDepth;
+                                    if d.bool("maxdepth_reached") != Some(md_ref) {
+                                        out.violate(format!("C03/audit_maxdepth_flag/{pname}"), format!("draw {i}: maxdepth_reached {:?}, reference stop reason {:?} at depth {}", d.bool("maxdepth_reached"), a.reason, a.depth));
+                                        return;
+                                    }
+                                    if idx < a.block.0 || idx > a.block.1 {
+                                        out.violate(format!("C03/draw_from_rejected_subtree/{pname}"), format!("draw {i}: index {idx} outside the accepted block {:?} (rejected {:?})", a.block, a.rejected));
+                                        return;
+                                    }
+                                    if a.reason == crate::refnuts::StopReason::SubtreeTurning {
+                                        out.probe("rejected_subtrees_seen", 1);
+                                    }
+                                }
+                            }
+                        }
+                    }
+                }
+            }
             // the next trajectory starts from this draw: for a diagonal transformation with reported
             // scales the first leapfrog position is predicted from (previous draw, its gradient, the
             // momentum seen at the seam, the step size in force, the scales in force)
@@ -627,3 +684,31 @@ impl Scenario for FaultScenario {
 
 #[allow(dead_code)]
 fn _unused(_: &DrawRec) {}
+
+/// true if any pair of visited states has a U-turn product within the tie margin (then the reference's
+/// decisions cannot be trusted to match bit-level arithmetic of the implementation)
+fn trajectory_has_near_tie(tr: &[TapState]) -> bool {
+    let st: Vec<&TapState> = tr.iter().filter(|s| !s.failed && !s.y.is_empty()).collect();
+    for a in 0..st.len() {
+        for b in (a + 1)..st.len() {
+            let (sa, sb) = if st[a].index < st[b].index { (st[a], st[b]) } else { (st[b], st[a]) };
+            let mut t1 = 0.0;
+            let mut t2 = 0.0;
+            let mut nd = 0.0;
+            let mut na = 0.0;
+            let mut nb = 0.0;
+            for i in 0..sa.y.len() {
+                let d = sb.y[i] - sa.y[i];
+                t1 += d * sa.v[i];
+                t2 += d * sb.v[i];
+                nd += d * d;
+                na += sa.v[i] * sa.v[i];
+                nb += sb.v[i] * sb.v[i];
+            }
+            if t1.abs() <= 1e-9 * (nd * na).sqrt() || t2.abs() <= 1e-9 * (nd * nb).sqrt() {
+                return true;
+            }
+        }
+    }
+    false
+}
